@@ -44,3 +44,22 @@ package plumbing
 //gvc:  theory int
 //gvc:  ensures same: result == r.h
 //gvc:end
+
+//gvc:func NewHashReference
+//gvc:  props C39
+//gvc:  theory int
+//gvc:  ensures fresh: result != nil && same_string(result.n, n) && result.h == h && result.t == HashReference
+//gvc:end
+
+// IsZero compares all 32 id bytes with zero (trusted: the comparison buffer
+// `empty` is a package variable created with make).
+//gvc:func ObjectID.IsZero
+//gvc:  trusted
+//gvc:  ensures zero: result == forall(k, 0, 32, s.hash[k] == 0)
+//gvc:end
+
+// Equal compares the id bytes only (not the object format).
+//gvc:func ObjectID.Equal
+//gvc:  trusted
+//gvc:  ensures bytes: result == forall(k, 0, 32, s.hash[k] == in.hash[k])
+//gvc:end
